@@ -13,16 +13,27 @@ def main():
     copy = "--copy" in sys.argv
     only = os.environ.get("VERIF_ONLY")
     ids = args or sorted(os.listdir(SEEDED))
+    if "--reverse" in sys.argv:
+        ids = list(reversed(ids))
     for sid in ids:
         sd = os.path.join(SEEDED, sid)
         mp = os.path.join(sd, "meta.json")
         if not os.path.exists(os.path.join(sd, "patch.diff")):
             continue
         meta = json.load(open(mp))
+        if "--skip-done" in sys.argv and meta.get("evaluation"):
+            continue
+        lockf = os.path.join(sd, ".evaluating")
+        if "--skip-done" in sys.argv:
+            try:
+                fd = os.open(lockf, os.O_CREAT | os.O_EXCL | os.O_WRONLY)
+                os.close(fd)
+            except FileExistsError:
+                continue
         prop = meta["property"]
         env = dict(os.environ)
         if copy:
-            repo = "/tmp/wt/eval_repo"
+            repo = os.environ.get("EVAL_REPO", "/tmp/wt/eval_repo")
             subprocess.run(["rsync", "-a", "--delete", "--exclude", "/target", "/repo/", repo + "/"], check=True)
             subprocess.run(["git", "-C", repo, "checkout", "-q", "--", "."], check=True)
             env["VERIF_REPO"] = repo
@@ -49,6 +60,10 @@ def main():
                               "detected": rc == 1 and bool(viol), "wall_s": round(time.time() - t0),
                               "log_tail": out[-1500:]}
         json.dump(meta, open(mp, "w"), indent=1)
+        try:
+            os.unlink(os.path.join(sd, ".evaluating"))
+        except OSError:
+            pass
         print(sid, "exit", rc, "detected" if rc == 1 and viol else "MISSED", viol[:2], fails[:4])
 
 
